@@ -237,14 +237,18 @@ func (c *checkCtx) codecTask(names []string, runs []string) {
 		}
 		fc := cf.Funcs[name]
 		formatRelative := c.prop != "C02" && c.prop != "C03" && c.prop != "C13"
-		for _, ts := range c.instantiationsFor(fn, name, used) {
+		insts := c.instantiationsFor(fn, name, used)
+		// instantiations in which every type argument is wider than one byte come first: only they can tell the two
+		// byte orders apart, so only they may look for the order the code actually uses (see resolveHoles)
+		sort.SliceStable(insts, func(i, j int) bool { return discriminating(insts[i]) && !discriminating(insts[j]) })
+		for _, ts := range insts {
 			tg, err := c.V.target(pkgPath, name, ts)
 			if err != nil {
 				continue
 			}
 			c.funcs[tg.Inst] = true
 			obs := c.guard(tg.Inst, "verify", func() []*Obligation { return c.V.VerifyFunction(tg, only) })
-			if len(fc.Holes) > 0 && formatRelative {
+			if len(fc.Holes) > 0 && formatRelative && discriminating(ts) {
 				// pinned versus extracted format (DESIGN 4.5): if the pinned byte order does not verify, look for the
 				// order the code actually uses; format-relative properties are then proved against that one, and
 				// the deviation is C02 / C03's to report
@@ -255,6 +259,16 @@ func (c *checkCtx) codecTask(names []string, runs []string) {
 			c.obs = append(c.obs, obs...)
 		}
 	}
+}
+
+// discriminating: no type argument is a one-byte type (for which big- and little-endian coincide).
+func discriminating(ts []types.Type) bool {
+	for _, t := range ts {
+		if ti, ok := basicInfo(t); ok && ti.Width == 1 {
+			return false
+		}
+	}
+	return true
 }
 
 func allDischarged(obs []*Obligation) bool {
